@@ -15,6 +15,14 @@ def cellsOf : Val → Option (List Cell)
 
 def natList (xs : List Nat) : Val := .list (xs.map fun (i : Nat) => .cell (.int (Int.ofNat i)))
 
+/-- C07-only wire spellings: `TS:<us>` (a `pd.Timestamp`) and `NS:<hex>` (a `np.str_`) are read as the datetime / string cells
+`T:` / `S:`.  `as_primitive` keeps these objects, but `cmp` ranks them with their base types (`datetime`, `str`) and python
+compares them natively with those by value, so the model has no separate cells for them. -/
+partial def normSexp : Sexp → Sexp
+  | .atom s => if s.startsWith "TS:" then .atom ("T:" ++ (s.drop 3).toString)
+               else if s.startsWith "NS:" then .atom ("S:" ++ (s.drop 3).toString) else .atom s
+  | .node xs => .node (xs.map normSexp)
+
 abbrev St := Unit
 def init : St := ()
 def modelName : String := "cmp"
@@ -41,6 +49,12 @@ def handle1 (op : String) (args : List Sexp) : Option String := do
       match ← Val.ofSexp keys with
       | .list ks => pure ("ok " ++ (natList (sortIdx ks)).render)
       | _ => Option.none
+  | "sortidxl", [keys, .atom _] =>
+      -- `d.sort([k0, k1, ...])`, the list-of-keys form: the property orders by the key columns as given (the flag only tells the
+      -- runner how to NAME the columns)
+      match ← Val.ofSexp keys with
+      | .list ks => pure ("ok " ++ (natList (sortIdx ks)).render)
+      | _ => Option.none
   | "sortfn", [keys, .atom fn] =>
       -- `d.sort(f)` with a key FUNCTION of the columns: the sort key of a row is the 1-tuple `(f(row),)`
       match ← Val.ofSexp keys with
@@ -63,6 +77,6 @@ def handle1 (op : String) (args : List Sexp) : Option String := do
   | _, _ => Option.none
 
 def handle (s : St) (op : String) (args : List Sexp) : Option (St × String) :=
-  (handle1 op args).map fun r => (s, r)
+  (handle1 op (args.map normSexp)).map fun r => (s, r)
 
 end Pyg.CmpDriver
